@@ -98,7 +98,7 @@ PROPS = {
                 "is executed twice, differing only in what every receive buffer holds beyond the datagram (zeros vs 0xFF / marker text / the previous datagram / pointer-like bytes); any difference in the run fingerprint "
                 "(all datagrams emitted, tun writes, wake-ups, exits) or in how the run ends is a violation. In addition a sample of plain runs of six scenarios is executed under valgrind/memcheck "
                 "(the same deterministic simulator, uninstrumented build): a branch, address or system call of the real programs that depends on bytes nobody wrote - stack or heap residue, which the pair runs "
-                "cannot vary - is a violation. evaluations counts pairs and memcheck runs; non-trivial = the underlying run was non-trivial; distinct = distinct fingerprints",
+                "cannot vary - is a violation, and so is any never-written byte in a datagram or tun frame the real programs emit (definedness check in the libc seam). evaluations counts pairs and memcheck runs; non-trivial = the underlying run was non-trivial; distinct = distinct fingerprints",
         "jobs": [
             {"scen": "hostile_srv", "sets": {"pair": True}, "quick": 700, "thorough": 60000},
             {"scen": "hostile_cli", "sets": {"pair": True}, "quick": 2000, "thorough": 150000},
